@@ -198,9 +198,43 @@ func ruleF8Bitmap(p *Prog) *RuleResult {
 		kinds = append(kinds, k)
 	}
 	sort.Strings(kinds)
+	// kernels: the methods of the container interface and the kind methods they (transitively) call. A kind
+	// method outside that closure is table-level code that happens to be spelled as a method (for example a
+	// per-kind hook of the lazy aggregation, whose results are repaired later) and is not judged here.
+	ifaceNames, _, _ := kindMethods(p)
+	kernel := map[*ssa.Function]bool{}
+	var work []*ssa.Function
 	for _, k := range kinds {
 		for _, f := range perKind[k] {
-			if f.Blocks == nil {
+			if ifaceNames[f.Name()] {
+				kernel[f] = true
+				work = append(work, f)
+			}
+		}
+	}
+	isKindMethod := map[*ssa.Function]bool{}
+	for _, k := range kinds {
+		for _, f := range perKind[k] {
+			isKindMethod[f] = true
+		}
+	}
+	for len(work) > 0 {
+		f := work[len(work)-1]
+		work = work[:len(work)-1]
+		for _, b := range f.Blocks {
+			for _, ins := range b.Instrs {
+				if c, ok := ins.(*ssa.Call); ok {
+					if g := c.Call.StaticCallee(); g != nil && isKindMethod[g] && !kernel[g] {
+						kernel[g] = true
+						work = append(work, g)
+					}
+				}
+			}
+		}
+	}
+	for _, k := range kinds {
+		for _, f := range perKind[k] {
+			if f.Blocks == nil || !kernel[f] {
 				continue
 			}
 			rt := f.Signature.Results()
